@@ -798,6 +798,11 @@ func (c *Conn) readRecordOrCCS(expectChangeCipherSpec bool) error {
 			if len(data) == 0 || expectChangeCipherSpec {
 				return c.in.setErrorLocked(c.sendAlert(alertUnexpectedMessage))
 			}
+			// 握手完成后的握手记录（对端重传的最后一 flight 等）直接丢弃，
+			// 否则 handBuf 会随对端发送的握手记录无限增长。
+			if handshakeComplete {
+				continue
+			}
 			c.handBuf.Write(data)
 			// 如果还有未处理记录，继续循环处理
 			if len(c.rawInputBuf) > 0 {
@@ -1476,7 +1481,7 @@ func (c *Conn) ReadFrom(p []byte) (n int, addr net.Addr, err error) {
 					return 0, c.remoteAddr, io.EOF
 				}
 			case recordTypeHandshake:
-				c.handBuf.Write(plaintext)
+				// 握手已完成：丢弃握手记录（不缓存，避免 handBuf 无限增长）
 			}
 			continue
 		}
